@@ -123,6 +123,16 @@ CHECKS.update({
                 design='DESIGN.md section 9 (C09)', technique='TLA+ mechanism model of the LRU cache + TLC trace validation of long histories against a history-free step function'),
 })
 
+CHECKS.update({
+    'C11': dict(text=("Model-based: Mini.tla recomputes every code value and every float->code rounding of the nine small formats "
+                      "from the format definitions on bit patterns (half rounding first, nearest/ties-to-even-code on the "
+                      "extended grid, overflow after rounding, per-format and per-option special mappings). TLC checks the "
+                      "decode/encode round trip on every code; every code and (quick: ~760, thorough: all 65536) half inputs x "
+                      "every format x both mxfp_overflow modes go through the real library and TLC compares; random float64 "
+                      "midpoints +-1ulp, subnormals, inf/NaN/-0.0 and power-of-two scaled dtypes likewise."),
+                design='DESIGN.md section 9 (C11)', technique='TLA+ bit-pattern float codec spec + TLC round-trip theorems + exhaustive code tables replayed + TLC trace validation'),
+})
+
 NOT_YET = {
 }
 
